@@ -296,3 +296,5 @@ ASSUMED_MODELS = ["pathlib.Path.stat/st_size", "open()", "io.BytesIO.seek/tell (
 BOUNDED = []
 ASSUMPTIONS = ["peak memory and run time as quantities are not decided (not expressible as contracts); amplification inside olefile / lzma / deflate / openpyxl is not decided",
                f"a repetition count is 'bounded' when <= {REPEAT_CAP} on its path", "EXC-ANY", "policy obligations decided by AST dominance analysis"]
+
+REPLAY_UNKNOWN = True    # undecided / out-of-subset items are searched natively (replay) before being reported UNDECIDED
